@@ -139,7 +139,9 @@ def run_tlc(module, cfg=None, workers=8, env=None, timeout=1800, simulate=None, 
     """
     cwd = cwd or SPEC
     meta = tempfile.mkdtemp(prefix="tlcmeta-", dir=scratch())
-    cmd = ["java", "-XX:+UseParallelGC", "-Xmx" + heap, "-cp", tlc_classpath(), "tlc2.TLC",
+    jtmp = os.path.join(scratch(), "jtmp")      # TLC unpacks library modules into java.io.tmpdir and leaves them there
+    os.makedirs(jtmp, exist_ok=True)
+    cmd = ["java", "-XX:+UseParallelGC", "-Xmx" + heap, "-Djava.io.tmpdir=" + jtmp, "-cp", tlc_classpath(), "tlc2.TLC",
            "-workers", str(workers), "-metadir", meta, "-noGenerateSpecTE"]
     if cfg:
         cmd += ["-config", cfg if cfg.endswith(".cfg") else cfg + ".cfg"]
@@ -285,6 +287,7 @@ def pmap(fn, items, procs=None):
     procs = procs or min(16, os.cpu_count() or 4, max(1, len(items)))
     if procs <= 1 or len(items) <= 1:
         return [fn(x) for x in items]
+    scratch()       # created in the parent: forked workers inherit it instead of each leaving a directory of its own behind
     ctx = mp.get_context("fork")
     with ctx.Pool(procs) as pool:
         return pool.map(fn, items, chunksize=1)
